@@ -174,12 +174,13 @@ func getPrior(st int) *prior {
 				hfail("template: mixed block (%s): %v", modeName(trie), err)
 			}
 			rs := c.Receipts(1)
-			for i := 0; i < 8; i++ {
+			for i := 0; i < 11; i++ {
 				if rs[i].Status != types.ReceiptStatusSuccessful {
 					hfail("template: transaction %d of the mixed block failed (%s)", i, modeName(trie))
 				}
 			}
-			if !bytes.Equal(c.Code(storeAddr), txkit.StoreRuntime) || c.TokenBalance(txkit.A.Addr, issuerAddr).Cmp(txkit.LKC(500)) != 0 {
+			if !bytes.Equal(c.Code(storeAddr), txkit.StoreRuntime) || c.TokenBalance(txkit.A.Addr, issuerAddr).Cmp(txkit.LKC(500)) != 0 ||
+				len(c.AllAccounts()[multiAddr].Storage) != 8 || len(c.Code(sdAddr2)) == 0 || len(c.Code(sdAddr3)) == 0 {
 				hfail("template: contracts of the mixed block are not in place")
 			}
 		}
